@@ -217,6 +217,42 @@ func stressPool(plan []M, out *Out, _ []string) {
 func countAtomicValue(plan []M, out *Out, _ []string) {
 	for _, p := range plan {
 		kind, nt, nops, rounds := str(p, "kind"), num(p, "threads"), num(p, "ops"), num(p, "rounds")
+		if kind == "firststore" {
+			// a never-used value, its very first accesses racing: Load (and CompareAndSwap, Swap of others) against ONE Store(x);
+			// once everybody has returned, the register holds x (nothing else was ever stored)
+			bad, firstBad := 0, 0
+			for r := 0; r < rounds; r++ {
+				type big struct{ a, b, c, d int }
+				v := new(sync2.AtomicValue[big])
+				x := big{r + 1, 2, 3, 4}
+				var wg sync.WaitGroup
+				start := make(chan struct{})
+				for t := 0; t < nt; t++ {
+					wg.Add(1)
+					go func(t int) {
+						defer wg.Done()
+						<-start
+						if t == 0 {
+							v.Store(x)
+						} else if t%2 == 1 {
+							v.Load()
+						} else {
+							v.CompareAndSwap(big{}, big{})
+						}
+					}(t)
+				}
+				close(start)
+				wg.Wait()
+				if got := v.Load(); got != x && got != (big{}) || v.Load() != x {
+					if bad == 0 {
+						firstBad = r
+					}
+					bad++
+				}
+			}
+			out.Emit(M{"ev": "firststore", "rounds": rounds, "bad": bad, "first": firstBad})
+			continue
+		}
 		for r := 0; r < rounds; r++ {
 			v := new(sync2.AtomicValue[int])
 			rets := make([][]int, nt)
